@@ -136,6 +136,7 @@ func checkC01(c *km.Ctx) {
 	// verifier (C06's R-C06-4) belong to "the credential is valid" here as well
 	checkKeymasterSigned(c, s, "R-C01-3")
 	checkAnyMask(c, "R-C01-6")
+	checkConfigKeys(c, "R-C01-6", "the factors the operator requires", "baseConfig.AllowedAuthBackendsForCerts", "baseConfig.AllowedAuthBackendsForWebUI")
 
 	// a session cookie counts as a credential only while its signed claims say so: issuer, audience, kind,
 	// not-before and expiry are the obligations of C04's consumers of the session token type, borrowed here
